@@ -151,7 +151,11 @@ func (d *describer) desc(v any) Node {
 		return Node{"t": "nilptr", "go": typeName(rv.Type())}
 	}
 	if dd, ok := v.(Describable); ok {
-		return d.view(dd.XDesc())
+		vw := dd.XDesc()
+		if rv.Kind() == reflect.Ptr && !strings.HasPrefix(vw.Ty, "*") {
+			vw.Ty = "*" + vw.Ty // a pointer to a type that describes itself by value (fx Val): not the same thing as a copy
+		}
+		return d.view(vw)
 	}
 	// a struct value whose pointer type is describable (fx Obj by value)
 	if rv.Kind() == reflect.Struct {
@@ -622,6 +626,16 @@ func FnStr(args ...any) string { rt.Count(ID + ".FnStr"); return ID + ".FnStr(" 
 func FnInt(args ...any) int    { rt.Count(ID + ".FnInt"); return 40 + len(args) }
 func FnNil(args ...any) any    { rt.Count(ID + ".FnNil"); return nil }
 func FnObj(args ...any) any    { rt.Count(ID + ".FnObj"); return mk("FnObj", args) }
+
+// FnTyped has parameter types that differ from the types literals have in a %fn(...)% token: the arguments arrive converted.
+func FnTyped(a int64, b float64, c uint8, s string, rest ...float32) string {
+	rt.Count(ID + ".FnTyped")
+	args := []any{a, b, c, s}
+	for _, r := range rest {
+		args = append(args, r)
+	}
+	return ID + ".FnTyped(" + render(args) + ")"
+}
 
 // FnE fails iff its first argument is "fail".
 func FnE(args ...any) (any, error) {
